@@ -9,7 +9,8 @@ code), whether property C19 held.  It knows nothing about eventfd counters, ring
 Rules (one `bad` verdict each):
   every event returned by a wait is a completion that was posted and not yet delivered, with its key and data
   (otherwise `garbled-or-spurious-event`), never overtaking an older one of the same producer (`overtaking`);
-  a wait made after posts have returned delivers them, up to its `max` (`lost-or-delayed-completion`);
+  a wait made after posts have returned delivers them, up to its `max` (`lost-or-delayed-completion`; `lost-wakeup`
+  when it finds nothing at all: it would go to sleep on a posted completion);
   a post is refused only when `completionRingSize` completions are undelivered (`post-refused`);
   the queue hands over exactly the accepted messages in FIFO order, drops / refuses / blocks only as its flags
   say, wakes a blocked writer at the next successful dequeue, reports consistent statistics and ring indices;
@@ -64,7 +65,9 @@ def judgeWait (s : JState) (max : Nat) (evs : List Item) : JState :=
   let s := if evs.length > max then s.flag s!"too-many-events max={max} got={evs.length}" else s
   let expect := min max s.outstanding.length
   let s := if evs.length < expect then
-      s.flag s!"lost-or-delayed-completion undelivered={s.outstanding.length} max={max} got={evs.length}" else s
+      s.flag (if evs.length = 0
+              then s!"lost-wakeup a wait found nothing although {s.outstanding.length} posted completion(s) are undelivered"
+              else s!"lost-or-delayed-completion undelivered={s.outstanding.length} max={max} got={evs.length}") else s
   evs.foldl (fun s it =>
     match takeItem it s.outstanding [] with
     | none => s.flag s!"garbled-or-spurious-event key={it.1} data={it.2}"
@@ -121,6 +124,8 @@ def judgeCore (s : JState) (e : Ev) : JState :=
     else s.flag s!"post-refused rc={rc} undelivered={s.outstanding.length}"
   | .wakeup rc => if rc = 0 then s else s.flag s!"wakeup-failed rc={rc}"
   | .wait max evs => judgeWait s max evs
+  | .wbegin _ => s
+  | .wread => s
   | .qnew c m f ok =>
     if ok = (decide (c ≠ 0 ∧ m ≠ 0)) then
       if ok then { s with q := some { cap := c, maxMsg := m, flags := f } } else s
